@@ -350,6 +350,12 @@ func runC14(e *Engine, r *Report, tier string) {
 		r.Check(neqOK, "R3", "from!=to", e.Pos(vb.Pos()), "success requires From != To", "From == To is not rejected")
 		// hash covers both from and to
 		hf := e.PkgFunc("x/migrate/types", "MigrateAccountSignatureHash")
+		if hf == nil {
+			// renamed: the two-parameter digest function of the package
+			hf = e.findFn(func(f *ssa.Function) bool {
+				return strings.HasSuffix(fnPkgPath(f), "x/migrate/types") && f.Signature.Recv() == nil && len(f.Params) == 2 && callsNamed(f, "Keccak256")
+			})
+		}
 		okHash := false
 		if hf != nil && len(hf.Params) == 2 {
 			allCalls(hf, func(c ssa.CallInstruction) {
